@@ -693,53 +693,56 @@ def git_and_include(chk):
     def git(cwd, *a):
         subprocess.run(["git"] + list(a), cwd=cwd, env=env, capture_output=True, text=True, check=True)
 
-    files = {
-        "cond_config.toml": "",
-        ".gitignore": "cond-out\n",
-        "common/defs.cond": 'MSG = "project-wide-defs"\n',
-        "pkg/common/defs.cond": 'MSG = "pkg-local-defs"\n',
-        "pkg/COND": 'include("//common/defs.cond")\nrun_experiment(name="t", run="echo " + MSG + " > $COND_OUT/msg.txt")\n',
-        "docs/notes/readme": "x\n",
-        "third_party/lib/file": "vendored\n",
-    }
-    template = implrun.make_project(files, git=True)
-    git(template, "init", "-q", "-b", "main")
-    # the vendored repository has its own history; the outer repository ignores its .git
-    git(os.path.join(template, "third_party", "lib"), "init", "-q", "-b", "main")
-    git(os.path.join(template, "third_party", "lib"), "add", "-A")
-    git(os.path.join(template, "third_party", "lib"), "commit", "-q", "-m", "vendored")
-    git(template, "add", "cond_config.toml", ".gitignore", "common", "pkg", "docs")
-    git(template, "commit", "-q", "-m", "c0")
-    cwds = [".", "pkg", "docs/notes", "third_party/lib", "common"]
-    commands = [["run", "//pkg:t"], ["run", "//pkg:t", "--check"], ["run", "//pkg:t", "--this-commit"], ["run", "//pkg:t", "--at-least", "HEAD"],
-                ["run", "//pkg:t", "--again", "--at-least", "main"], ["where", "//pkg:t"]]
-    top = os.path.dirname(template)
-    for argv in commands:
-        base = None
-        for cwd in cwds:
-            work = os.path.join(top, "w-%s-%s" % ("-".join(a.strip("/-:") for a in argv[1:]) or "x", cwd.replace("/", "_").replace(".", "root")))
-            shutil.copytree(template, work, symlinks=True)
-            if argv[0] == "where":     # something to locate
-                run_cond_retry(chk, ["run", "//pkg:t"], work, env=env)
-            res = run_cond_retry(chk, argv, os.path.join(work, cwd), env=env)
-            chk.coverage["evaluations"] += 1
-            chk.count("git+include", cwd)
-            outs = {}
-            for dp, _dn, fn in os.walk(os.path.join(work, "cond-out")):
-                for f in fn:
-                    if f == "msg.txt":
-                        outs[re.sub(r"\.task\.\d+", ".task.<v>", os.path.relpath(dp, work))] = open(os.path.join(dp, f)).read().strip()
-            rows = [(r[0], r[2] is not None, bool(r[3])) for r in implrun.index_rows(work)]
-            loc = re.sub(r"\.task\.\d+", ".task.<v>", os.path.relpath(os.path.realpath(os.path.join(work, cwd, res.out.strip())), work)) if argv[0] == "where" and res.code == 0 and res.out.strip() else None
-            obs = {"exit": res.code, "outputs": outs, "rows": rows, "location": loc}
-            if base is None:
-                base = obs
-            elif obs != base:
-                chk.violation("impl-violation", "`cond %s` from %s: %r; from the project root: %r (stderr %r)" % (" ".join(argv), cwd, obs, base, res.err[-300:]),
-                              {"input": {"kind": "git-and-include", "argv": argv, "cwd": cwd, "files": files}, "impl_observation": {"from_cwd": obs, "from_root": base, "stderr": res.err[-600:]}},
-                              match_key={"command": " ".join(argv), "cwd": "git+include"}, size=len(cwd))
-            shutil.rmtree(work, ignore_errors=True)
-    shutil.rmtree(top, ignore_errors=True)
+    # the same with `disable_git = true` in a project that nevertheless lies inside a git repository: the configuration file
+    # must be found and honoured from every directory (the commit flags are then refused everywhere, no commit is recorded)
+    for cfg in ("", "disable_git = true\n"):
+        files = {
+            "cond_config.toml": cfg,
+            ".gitignore": "cond-out\n",
+            "common/defs.cond": 'MSG = "project-wide-defs"\n',
+            "pkg/common/defs.cond": 'MSG = "pkg-local-defs"\n',
+            "pkg/COND": 'include("//common/defs.cond")\nrun_experiment(name="t", run="echo " + MSG + " > $COND_OUT/msg.txt")\n',
+            "docs/notes/readme": "x\n",
+            "third_party/lib/file": "vendored\n",
+        }
+        template = implrun.make_project(files, git=True)
+        git(template, "init", "-q", "-b", "main")
+        # the vendored repository has its own history; the outer repository ignores its .git
+        git(os.path.join(template, "third_party", "lib"), "init", "-q", "-b", "main")
+        git(os.path.join(template, "third_party", "lib"), "add", "-A")
+        git(os.path.join(template, "third_party", "lib"), "commit", "-q", "-m", "vendored")
+        git(template, "add", "cond_config.toml", ".gitignore", "common", "pkg", "docs")
+        git(template, "commit", "-q", "-m", "c0")
+        cwds = [".", "pkg", "docs/notes", "third_party/lib", "common"]
+        commands = [["run", "//pkg:t"], ["run", "//pkg:t", "--check"], ["run", "//pkg:t", "--this-commit"], ["run", "//pkg:t", "--at-least", "HEAD"],
+                    ["run", "//pkg:t", "--again", "--at-least", "main"], ["where", "//pkg:t"]]
+        top = os.path.dirname(template)
+        for argv in commands:
+            base = None
+            for cwd in cwds:
+                work = os.path.join(top, "w-%s-%s" % ("-".join(a.strip("/-:") for a in argv[1:]) or "x", cwd.replace("/", "_").replace(".", "root")))
+                shutil.copytree(template, work, symlinks=True)
+                if argv[0] == "where":     # something to locate
+                    run_cond_retry(chk, ["run", "//pkg:t"], work, env=env)
+                res = run_cond_retry(chk, argv, os.path.join(work, cwd), env=env)
+                chk.coverage["evaluations"] += 1
+                chk.count("git+include" + (" (disable_git = true)" if cfg else ""), cwd)
+                outs = {}
+                for dp, _dn, fn in os.walk(os.path.join(work, "cond-out")):
+                    for f in fn:
+                        if f == "msg.txt":
+                            outs[re.sub(r"\.task\.\d+", ".task.<v>", os.path.relpath(dp, work))] = open(os.path.join(dp, f)).read().strip()
+                rows = [(r[0], r[2] is not None, bool(r[3])) for r in implrun.index_rows(work)]
+                loc = re.sub(r"\.task\.\d+", ".task.<v>", os.path.relpath(os.path.realpath(os.path.join(work, cwd, res.out.strip())), work)) if argv[0] == "where" and res.code == 0 and res.out.strip() else None
+                obs = {"exit": res.code, "outputs": outs, "rows": rows, "location": loc}
+                if base is None:
+                    base = obs
+                elif obs != base:
+                    chk.violation("impl-violation", "`cond %s` from %s: %r; from the project root: %r (stderr %r)" % (" ".join(argv), cwd, obs, base, res.err[-300:]),
+                                  {"input": {"kind": "git-and-include", "argv": argv, "cwd": cwd, "files": files, "cond_config": cfg}, "impl_observation": {"from_cwd": obs, "from_root": base, "stderr": res.err[-600:]}},
+                                  match_key={"command": " ".join(argv), "cwd": "git+include"}, size=len(cwd))
+                shutil.rmtree(work, ignore_errors=True)
+        shutil.rmtree(top, ignore_errors=True)
 
 
 # ============================================================================= entry point
